@@ -41,6 +41,20 @@ def g(self, other):
 def scan_nondeterminism(modname, tree):
     """-> list of (node, description)"""
     out = []
+    # names that really are the random-number modules here (imported), not locals that share the name
+    imported = set()
+    for n in ast.walk(tree):
+        if isinstance(n, ast.Import):
+            imported |= {(a.asname or a.name).split('.')[0] for a in n.names if a.name.split('.')[0] in BAD_MODULES}
+        elif isinstance(n, ast.ImportFrom) and (n.module or '').split('.')[0] in BAD_MODULES:
+            imported |= {a.asname or a.name for a in n.names}
+    # id(a) <op> id(b): an identity comparison written the long way -- the values are only compared
+    id_compares = set()
+    for n in ast.walk(tree):
+        if isinstance(n, ast.Compare) and len(n.ops) == 1 and isinstance(n.ops[0], (ast.Eq, ast.NotEq, ast.Is, ast.IsNot)):
+            sides = [n.left, n.comparators[0]]
+            if all(isinstance(x, ast.Call) and isinstance(x.func, ast.Name) and x.func.id == 'id' for x in sides):
+                id_compares |= {id(x) for x in sides}
     for n in ast.walk(tree):
         if isinstance(n, ast.Import):
             for a in n.names:
@@ -58,11 +72,12 @@ def scan_nondeterminism(modname, tree):
             t = ntext(n)
             if t in ('np.random', 'numpy.random', 'os.urandom', 'sp.random', 'scipy.sparse.random'):
                 out.append((n, 'references %s' % t))
-            if isinstance(n.value, ast.Name) and n.value.id in BAD_MODULES:
+            if isinstance(n.value, ast.Name) and n.value.id in BAD_MODULES and n.value.id in imported:
                 out.append((n, 'uses %s' % t))
             if t.startswith('time.') and n.attr not in ('time', 'sleep', 'perf_counter'):
                 out.append((n, 'uses %s (only time.time()/time.sleep() are timing-only)' % t))
-        elif isinstance(n, ast.Call) and isinstance(n.func, ast.Name) and n.func.id in ('hash', 'id'):
+        elif isinstance(n, ast.Call) and isinstance(n.func, ast.Name) and n.func.id in ('hash', 'id') \
+                and id(n) not in id_compares:
             out.append((n, 'calls %s(): value differs between processes' % n.func.id))
         elif isinstance(n, (ast.For, ast.comprehension)):
             it = n.iter
